@@ -615,6 +615,84 @@ func c07Gen(tier string, rng *rand.Rand, emit func(interface{})) {
 		emit(c07Case{Op: 0, Knots: []c07Knot{{X: F64(t - 1), L: 0, V: 0}, {X: F64(t), L: 0.5, V: 0.5}, {X: F64(t + 2), L: 0.5, V: 0.5}, {X: F64(t + 3), L: 1, V: 1}},
 			Bl: F64(t - 1), Bh: F64(t + 3), Ys: toF64s([]float64{0, 1, 0.5, 0.25, 0.75, math.Nextafter(0.5, 1), math.Nextafter(0.5, 0)})})
 	}
+	// deterministic sweeps (nothing here depends on the PRNG): every number of bracket doublings,
+	// supports at / next to the bracket end points 2^k - 1 and the powers of two, both signs,
+	// supports containing 0, every scale 2^-20 .. 2^20
+	sweepYs := toF64s([]float64{0, 1, 0.5, 0.25, 0.75, math.Ldexp(1, -53), 1 - math.Ldexp(1, -53)})
+	for k := 0; k <= 21; k++ {
+		p2 := math.Ldexp(1, k)
+		for _, sg := range []float64{1, -1} {
+			for _, t := range []float64{p2 - 1, p2 - 1 + 1.0/1024, p2 - 1 - 1.0/1024, p2, p2 + 1} {
+				t *= sg
+				w := 1.0 / 16
+				// point mass; ramp starting at t; ramp ending at t (with a jump of 1/4 at its start)
+				emit(c07Case{Op: 0, Knots: []c07Knot{{X: F64(t), L: 0, V: 1}}, Bl: F64(t), Bh: F64(t), Ys: sweepYs})
+				emit(c07Case{Op: 0, Knots: []c07Knot{{X: F64(t), L: 0, V: 0}, {X: F64(t + w), L: 1, V: 1}}, Bl: F64(t), Bh: F64(t + w), Ys: sweepYs})
+				emit(c07Case{Op: 0, Knots: []c07Knot{{X: F64(t - w), L: 0, V: 0.25}, {X: F64(t), L: 0.75, V: 1}}, Bl: F64(t - w), Bh: F64(t), Ys: sweepYs})
+			}
+		}
+	}
+	for e := -20; e <= 20; e++ {
+		w := math.Ldexp(1, e)
+		for _, sg := range []float64{1, -1} {
+			// point mass at +-2^e; ramp between 0 and +-2^e; two jumps and a flat stretch across 0
+			emit(c07Case{Op: 0, Knots: []c07Knot{{X: F64(sg * w), L: 0, V: 1}}, Bl: F64(sg * w), Bh: F64(sg * w), Ys: sweepYs})
+			lo, hi := math.Min(0, sg*w), math.Max(0, sg*w)
+			emit(c07Case{Op: 0, Knots: []c07Knot{{X: F64(lo), L: 0, V: 0}, {X: F64(hi), L: 1, V: 1}}, Bl: F64(lo), Bh: F64(hi), Ys: sweepYs})
+		}
+		emit(c07Case{Op: 0, Knots: []c07Knot{{X: F64(-w), L: 0, V: 0.5}, {X: F64(w), L: 0.5, V: 1}}, Bl: F64(-w), Bh: F64(w), Ys: sweepYs})
+		emit(c07Case{Op: 0, Knots: []c07Knot{{X: F64(-w), L: 0, V: 0.25}, {X: F64(w / 2), L: 0.75, V: 0.75}, {X: F64(3 * w), L: 1, V: 1}}, Bl: F64(-w), Bh: F64(3 * w), Ys: sweepYs})
+	}
+	// every N: Binomial N = 1..80 with P = 1/2 and 1/4, Hypergeometric N = 2..60 (K = N/2, D = N/3 and
+	// K = N-1, D = 2); levels 0, 1, 1/2 and a cumulative level -+ 1e-6 at the mode, the ends and N/4
+	discSweepYs := func(cdf func(float64) float64, lo, hi int) []F64 {
+		ys := []float64{0, 1, 0.5}
+		for _, k := range []int{lo, (lo + hi) / 2, lo + (hi-lo)/4, hi - 1} {
+			if k >= lo && k < hi {
+				c := cdf(float64(k))
+				if c > 2e-6 && c < 1-2e-6 {
+					ys = append(ys, c-1e-6, c+1e-6)
+				}
+			}
+		}
+		return toF64s(ys)
+	}
+	for n := 1; n <= 80; n++ {
+		for _, p := range []float64{0.5, 0.25} {
+			emit(c07Case{Op: 1, N: n, P: F64(p), Ys: discSweepYs(stats.BinomialDist{N: n, P: p}.CDF, 0, n)})
+		}
+	}
+	for n := 2; n <= 60; n++ {
+		for _, kd := range [][2]int{{n / 2, (n + 2) / 3}, {n - 1, 2}} {
+			k, dr := kd[0], kd[1]
+			if dr > n {
+				dr = n
+			}
+			lo, hi := dr+k-n, dr
+			if lo < 0 {
+				lo = 0
+			}
+			if k < hi {
+				hi = k
+			}
+			emit(c07Case{Op: 2, N: n, K: k, D: dr, Ys: discSweepYs(stats.HypergeometicDist{N: n, K: k, Draws: dr}.CDF, lo, hi)})
+		}
+	}
+	// Rand: 0, 1, 2, 3 leading zeros x levels (inside a jump, on a ramp, smallest and largest value) x 3 distributions
+	randPWs := [][]c07Knot{
+		{{X: 3, L: 0, V: 1}},
+		{{X: -2, L: 0, V: 0.25}, {X: 6, L: 0.75, V: 1}},
+		{{X: 1000000, L: 0, V: 0}, {X: 1000000.5, L: 0.5, V: 0.5}, {X: 1000001, L: 0.5, V: 0.75}, {X: 1000002, L: 1, V: 1}},
+	}
+	for _, kn := range randPWs {
+		for z := 0; z <= 3; z++ {
+			for _, m := range []int64{1, 1 << 50, 1 << 52, 3 << 51, 1<<53 - 1, 5<<50 + 12345} {
+				src := make([]int64, z, z+2)
+				src = append(src, m<<10, 1<<62)
+				emit(c07Case{Op: 4, Knots: kn, Bl: kn[0].X, Bh: kn[len(kn)-1].X, Src: src})
+			}
+		}
+	}
 	// opt-in (VERIF_C07_TINY=1): distributions narrower than 1e-7 located at 0, where bisectBool's
 	// absolute xtol = 1e-16 limits the relative accuracy (reported under verdict code 10)
 	if os.Getenv("VERIF_C07_TINY") != "" {
